@@ -71,11 +71,19 @@ THEOREMS = [
              "of compose is the worklist's fuel (no KeyError, no in_cycle fuel error)"},
     {"name": "C14_fuel_irrelevant", "strength": "F",
      "text": "compose sp rt f1 = Val g1 -> compose sp rt f2 = Val g2 -> g1 = g2"},
-    {"name": "(tested, not proved) termination of the worklist; deserialize(serialize g) = g and equal "
-             "get_next_transitions for composed graphs; node order and the splits attribute",
-     "strength": "T",
-     "text": "the theorems about compose are conditional on compose returning Val (fuel sufficed; no termination "
-             "proof); these clauses are checked on every generated definition against the real composer"},
+    {"name": "C14b_compose_total / C14b_compose_fuel / C14b_inspected_composable / C14b_in_cycle_false_sound (props/C14b.v)",
+     "strength": "F",
+     "text": "TERMINATION: for every composable definition (task names unique, every task reachable from a start task declared "
+             "or an engine command -- which an empty semantic inspection report gives) the worklist returns a graph with the "
+             "computable fuel compose_fuel sp (of order E^N), more fuel gives the same graph, and any fuel that returns a "
+             "graph returns that one: the composer never diverges, cycles through split tasks included. The measure is a "
+             "weighted sum over ghost paths that never repeat a name (uses a completeness proof of the models.py cycle search)"},
+    {"name": "C14b_edges_sound_total / _edges_complete_total / _nodes_exact_total / _edges_unique_total / _edge_keys_dense_total / "
+             "_roots_exact_total / _attributes_exact_total / _serialize_roundtrip_total / _declaration_order_total", "strength": "F",
+     "text": "the C14 theorems restated unconditionally about compose_graph sp rt"},
+    {"name": "(tested) deserialize(serialize g) = g and equal get_next_transitions on the real composer; node order and the "
+             "splits attribute", "strength": "T",
+     "text": "checked on every generated definition against the real composer and an independent reference construction"},
 ]
 TRUSTED_BASE = [
     "Coq 8.16.1 kernel via coqc (full .vo build); vm_compute in the non-vacuity examples and in the generated "
